@@ -50,6 +50,11 @@ theorem legit_no_fault_of_canc (c : Case) (f : Nat) : ∀ (l : List Pop) (canc :
       rcases List.mem_cons.mp hm with heq | hm
       · cases heq
       · exact legit_no_fault_of_canc c f rest canc hl hf t a hm
+    | setcap t' v =>
+      simp only [legitFrom] at hl
+      rcases List.mem_cons.mp hm with heq | hm
+      · cases heq
+      · exact legit_no_fault_of_canc c f rest canc hl hf t a hm
     | job t' j cont =>
       simp only [legitFrom] at hl
       rcases List.mem_cons.mp hm with heq | hm
